@@ -269,6 +269,14 @@ def degenerate_parameter_worlds():
     cat.append(("plate-model-zero-max-depth", area("oceanic plate", **{"temperature models": [{"model": "plate model", "max depth": 0, "top temperature": 273, "bottom temperature": 1600, "spreading velocity": 0.05, "ridge coordinates": [[[0, -1e6], [0, 1e6]]]}]})))
     cat.append(("half-space-zero-velocity", area("oceanic plate", **{"temperature models": [{"model": "half space model", "max depth": 100e3, "top temperature": 273, "bottom temperature": 1600, "spreading velocity": 0, "ridge coordinates": [[[0, -1e6], [0, 1e6]]]}]})))
     cat.append(("plate-model-zero-velocity", area("oceanic plate", **{"temperature models": [{"model": "plate model", "max depth": 100e3, "top temperature": 273, "bottom temperature": 1600, "spreading velocity": 0, "ridge coordinates": [[[0, -1e6], [0, 1e6]]]}]})))
+    # ridges with a segment of zero length: a point ridge, the first coordinate listed twice, an interior coordinate listed twice
+    for nm, ridge in (("point", [[[20e3, 30e3], [20e3, 30e3]]]), ("first-twice", [[[20e3, -1e6], [20e3, -1e6], [20e3, 1e6]]]), ("interior-twice", [[[20e3, -1e6], [20e3, 0], [20e3, 0], [20e3, 1e6]]])):
+        for model in ("plate model", "half space model"):
+            cat.append(("ridge-zero-length-segment:%s:%s" % (nm, model.split()[0]),
+                        area("oceanic plate", **{"temperature models": [{"model": model, "max depth": 100e3, "top temperature": 273, "bottom temperature": 1600, "spreading velocity": 0.05, "ridge coordinates": ridge}]})))
+        cat.append(("ridge-zero-length-segment:%s:mass-conserving" % nm,
+                    slab(**{"temperature models": [{"model": "mass conserving", "spreading velocity": 0.05, "subducting velocity": 0.05, "ridge coordinates": ridge, "density": 3300, "thermal conductivity": 3.3, "coupling depth": 80e3,
+                                                    "taper distance": 100e3, "min distance slab top": -100e3, "max distance slab top": 100e3, "reference model name": "half space model"}]})))
     cat.append(("plume-zero-axis", plume(**{"semi-major axis": [0, 0]})))
     cat.append(("plume-eccentricity-one", plume(**{"eccentricity": [1, 1]})))
     cat.append(("plume-head-zero-height", plume(**{"min depth": 100e3})))
